@@ -13,6 +13,7 @@ CONSTANTS
   MaxSep = 2
   UseFat = TRUE
   GFns = {3, 4, 5}
+  NestOffs = {0, 1}
   MaxOpsPerFrame = 4
   MaxResets = 2
 INVARIANT RingAgrees
